@@ -251,4 +251,185 @@ theorem run_lower (env : Env) (l : Limits) (steps : List Step) :
         obtain ⟨h1, h2, h3⟩ := ih _ _ b hb
         exact ⟨by omega, h2, h3⟩
 
+/-! ### definitional facts (kept here: they are unfoldings, not property theorems) -/
+
+/-- the `HandlerChildrenRetry` clause of `post`, read back -/
+theorem children_retry (env : Env) (l : Limits) (r : Rec) (now : Int) (dur : Nat) (d : Option Int)
+    (h : precheck l r now = none) :
+    classify env l r now dur (.childrenRetry d) = retryWith d := by
+  rw [classify_of_precheck_none h]; rfl
+
+/-- `with_outcome`'s flags, read back -/
+theorem final_finished (r : Rec) (t : Int) (o : Outcome) :
+    (withOutcome r t o).finished = o.final ∧
+    ((withOutcome r t o).success = true ↔ (o.final = true ∧ o.exc = .none)) ∧
+    ((withOutcome r t o).failure = true ↔ (o.final = true ∧ o.exc ≠ .none)) := by
+  refine ⟨withOutcome_finished r t o, ?_, ?_⟩ <;> simp [withOutcome]
+
+/-- a retry outcome (one with a delay) is never final -/
+theorem classify_delay_not_final (env : Env) (l : Limits) (r : Rec) (now : Int) (dur : Nat) (x : Raised) (d : Int)
+    (h : (classify env l r now dur x).delay = some d) : (classify env l r now dur x).final = false := by
+  cases hp : precheck l r now with
+  | some e => rw [classify_of_precheck_some hp] at h; cases h
+  | none =>
+    rw [classify_of_precheck_none hp] at h ⊢
+    cases x with
+    | ok => simp [post, finalWith] at h
+    | permanent => simp [post, finalWith] at h
+    | childrenRetry d' => rfl
+    | temporary d' =>
+      simp only [post] at h ⊢
+      cases hl : lookahead l r (now + dur) (orZero d') with
+      | some e => simp [hl, finalWith] at h
+      | none => simp [retryWith]
+    | arbitrary =>
+      simp only [post] at h ⊢
+      cases hm : l.mode env with
+      | ignored => simp [hm, finalWith] at h
+      | permanent => simp [hm, finalWith] at h
+      | temporary =>
+        simp only [hm] at h ⊢
+        cases hl : lookahead l r (now + dur) (l.backoffOr env) with
+        | some e => simp [hl, finalWith] at h
+        | none => simp [retryWith]
+
+/-! ### the environment fold -/
+
+theorem runEnv_restart (env : Env) (l : Limits) (now : Int) (hist : List Rec) (dn : Nat) (rest : List EStep) :
+    runEnv env l now hist (.restart dn :: rest) = .restarted (now + dn) :: runEnv env l (now + dn) hist rest := rfl
+
+theorem runEnv_cycle_awake (env : Env) (l : Limits) (now : Int) (hist : List Rec) (view : Nat) (stored : Bool)
+    (dt wait : Nat) (x : Raised) (dur lag : Nat) (rest : List EStep)
+    (h : (viewOf hist view (now + dt)).awakened (now + dt) = true) :
+    runEnv env l now hist (.cycle view stored dt wait x dur lag :: rest) =
+      .att (attemptAt env l (now + dt + wait) (viewOf hist view (now + dt)) x dur lag) ::
+        runEnv env l (attemptAt env l (now + dt + wait) (viewOf hist view (now + dt)) x dur lag).merged
+          (if stored then (attemptAt env l (now + dt + wait) (viewOf hist view (now + dt)) x dur lag).recAfter :: hist
+           else hist) rest := by
+  simp [runEnv, h]
+
+theorem runEnv_cycle_idle (env : Env) (l : Limits) (now : Int) (hist : List Rec) (view : Nat) (stored : Bool)
+    (dt wait : Nat) (x : Raised) (dur lag : Nat) (rest : List EStep)
+    (h : (viewOf hist view (now + dt)).awakened (now + dt) = false) :
+    runEnv env l now hist (.cycle view stored dt wait x dur lag :: rest) =
+      .idle (now + dt) (viewOf hist view (now + dt)).finished :: runEnv env l (now + dt) hist rest := by
+  simp [runEnv, h]
+
+theorem viewOf_zero (r : Rec) (h : List Rec) (t : Int) : viewOf (r :: h) 0 t = r := rfl
+
+/-! ### the timer -/
+
+theorem timerReset_unfinished {r : Rec} (h : r.finished = false) (now : Int) : timerReset r now = r := by
+  simp [timerReset, h]
+
+theorem timerReset_failure {r : Rec} (h : r.failure = true) (now : Int) : timerReset r now = r := by
+  simp [timerReset, h]
+
+theorem timerReset_success {r : Rec} (hf : r.finished = true) (hn : r.failure = false) (now : Int) :
+    timerReset r now = fromScratch now := by
+  simp [timerReset, hf, hn]
+
+theorem fromScratch_awakened (now : Int) : (fromScratch now).awakened now = true := by
+  simp [fromScratch, Rec.awakened, Rec.sleeping, Rec.finished]
+
+theorem finished_of_failure {r : Rec} (h : r.failure = true) : r.finished = true := by
+  simp [Rec.finished, h]
+
+theorem failure_false_of_unfinished {r : Rec} (h : r.finished = false) : r.failure = false := by
+  simp only [Rec.finished, Bool.or_eq_false_iff] at h; exact h.2
+
+theorem success_false_of_unfinished {r : Rec} (h : r.finished = false) : r.success = false := by
+  simp only [Rec.finished, Bool.or_eq_false_iff] at h; exact h.1
+
+/-- One iteration of the timer's loop: either the (possibly reset) record is awake and executed, or
+    nothing is awakened and the record is kept. -/
+theorem timerRun_step (env : Env) (l : Limits) (iv : Nat) (sh : Bool) (now : Int) (r : Rec) (x : Raised) (dur : Nat)
+    (rest : List (Raised × Nat)) :
+    ((timerReset r now).awakened now = true ∧
+      timerRun env l iv sh now r ((x, dur) :: rest) =
+        .att (attemptAt env l now (timerReset r now) x dur 0) ::
+          timerRun env l iv sh (timerNext iv sh (attemptAt env l now (timerReset r now) x dur 0))
+            (attemptAt env l now (timerReset r now) x dur 0).recAfter rest) ∨
+    ((timerReset r now).awakened now = false ∧
+      timerRun env l iv sh now r ((x, dur) :: rest) =
+        .idle now (timerReset r now).finished ::
+          timerRun env l iv sh (timerIdleNext iv sh (timerReset r now) now) (timerReset r now) rest) := by
+  cases h : (timerReset r now).awakened now
+  · right; exact ⟨rfl, by simp [timerRun, h]⟩
+  · left; exact ⟨rfl, by simp [timerRun, h]⟩
+
+/-- What the reset leaves of a record when the iteration is idle: the record itself. -/
+theorem timerReset_idle {r : Rec} {now : Int} (h : (timerReset r now).awakened now = false) :
+    timerReset r now = r := by
+  cases hf : r.finished with
+  | false => exact timerReset_unfinished hf now
+  | true =>
+    cases hn : r.failure with
+    | true => exact timerReset_failure hn now
+    | false => rw [timerReset_success hf hn, fromScratch_awakened] at h; cases h
+
+theorem timerPause_nonneg (iv : Nat) (sh : Bool) (passed : Int) : 0 ≤ timerPause iv sh passed := by
+  unfold timerPause
+  split
+  · split
+    · omega
+    · rename_i h
+      have hpos : (0 : Int) < iv := by omega
+      have := Int.emod_lt_of_pos passed hpos
+      omega
+  · omega
+
+theorem timerNext_ge (iv : Nat) (sh : Bool) (a : Attempt) : a.merged ≤ timerNext iv sh a := by
+  unfold timerNext
+  split
+  · have := timerPause_nonneg iv sh (a.merged - a.time); omega
+  · exact wakeTime_ge _ _
+
+theorem timerIdleNext_ge (iv : Nat) (sh : Bool) (r : Rec) (now : Int) : now ≤ timerIdleNext iv sh r now := by
+  unfold timerIdleNext
+  split
+  · have := timerPause_nonneg iv sh 0; omega
+  · exact wakeTime_ge _ _
+
+theorem loopRun_finished (env : Env) (l : Limits) (now : Int) (r : Rec) (script : List (Raised × Nat))
+    (h : r.finished = true) : loopRun env l now r script = [] := by
+  cases script with
+  | nil => rfl
+  | cons s rest => obtain ⟨x, dur⟩ := s; simp [loopRun, h]
+
+/-! ### minimum of a list -/
+
+theorem minList_none_iff (xs : List Int) : minList xs = none ↔ xs = [] := by
+  cases xs with
+  | nil => simp [minList]
+  | cons x rest => simp only [minList]; split <;> simp
+
+theorem minList_spec (xs : List Int) (m : Int) (h : minList xs = some m) : m ∈ xs ∧ ∀ x ∈ xs, m ≤ x := by
+  induction xs generalizing m with
+  | nil => simp [minList] at h
+  | cons x rest ih =>
+    simp only [minList] at h
+    split at h
+    · rename_i m' hm'
+      obtain ⟨h1, h2⟩ := ih m' hm'
+      cases h
+      by_cases hx : x ≤ m'
+      · rw [if_pos hx]
+        refine ⟨List.mem_cons_self, ?_⟩
+        intro y hy
+        rcases List.mem_cons.1 hy with rfl | hy'
+        · omega
+        · have := h2 y hy'; omega
+      · rw [if_neg hx]
+        refine ⟨List.mem_cons_of_mem _ h1, ?_⟩
+        intro y hy
+        rcases List.mem_cons.1 hy with rfl | hy'
+        · omega
+        · exact h2 y hy'
+    · rename_i hnone
+      cases h
+      have := (minList_none_iff rest).1 hnone
+      subst this
+      exact ⟨List.mem_cons_self, by intro y hy; simp at hy; omega⟩
+
 end Kopf.C11
